@@ -148,6 +148,12 @@ HLines(x) ==
      <<NHLine(3, <<NTLit("a")>>), NHLine(2, <<>>), NHLine(3, <<NTLit("b")>>)>>,
      <<NHLine(2, <<NTLit("a")>>), NHLine(0, <<>>), NHLine(4, <<NInterp(0, x), NInterp(0, NVar("s"))>>)>>,
      <<NHLine(1, <<NTLit("x"), NInterp(0, x), NTLit("b c")>>)>>,
+     \* lines that START with an interpolation or directive at column 0 between indented lines
+     <<NHLine(4, <<NTLit("a")>>), NHLine(0, <<NInterp(0, x)>>), NHLine(4, <<NTLit("b")>>)>>,
+     <<NHLine(0, <<NInterp(0, x), NTLit("a")>>), NHLine(2, <<NTLit("b")>>)>>,
+     <<NHLine(3, <<NTLit("a")>>), NHLine(2, <<NTLit("b")>>), NHLine(0, <<NInterp(0, x)>>)>>,
+     <<NHLine(2, <<NTLit("a")>>), NHLine(0, <<NTIf(0, NVar("b"), NTpl("q", <<NInterp(0, x)>>), NNone)>>), NHLine(2, <<NTLit("b")>>)>>,
+     <<NHLine(2, <<NTLit("a")>>), NHLine(1, <<NInterp(0, x)>>), NHLine(2, <<>>)>>,
      <<>>}
 HLeaves == {NTpl(k, ls) : k \in {"h", "hf"}, ls \in UNION {HLines(x) : x \in {NVar("s"), NVar("n1"), NVar("nul"), NVar("l"), NBin("+", NVar("n1"), NVar("n2"))}}}
 WHere(x) == {NTuple(<<x>>), NTuple(<<NVar("s"), x>>), NCall("upper", FALSE, <<x>>), NCall("cat", FALSE, <<x, NVar("s")>>),
